@@ -35,19 +35,26 @@ def extract(g, X):
 
     def depth():
         b = X.fn_body(impl_pagetree(), "page")
-        m = re.fullmatch(r"\s*self\s*\.\s*page_limited\s*\(\s*resolve\s*,\s*page_nr\s*,\s*(\d+)\s*\)\s*", b)
+        m = re.fullmatch(r"\s*self\s*\.\s*page_limited\s*\(\s*\w+\s*,\s*\w+\s*,\s*(\d+)\s*\)\s*", b)
         return str(X.lit(m.group(1)))
     g.attempt([("page_depth", "N")], "types.rs:PageTree::page", depth)
 
     def limited():
-        b = X.fn_body(impl_pagetree(), "page_limited")
-        init = re.findall(r"let\s+mut\s+pos\s*=\s*(\d+)\s*;", b)
-        steps = re.findall(r"pos\s*\+=\s*(\d+)\s*;", b)
-        dsteps = re.findall(r"depth\s*-\s*(\d+)", b)
-        zero = re.findall(r"if\s+depth\s*==\s*(\d+)\s*\{", b)
-        if len(init) != 1 or len(steps) != 1 or len(dsteps) != 1 or zero != ["0"]:
-            raise ValueError("page_limited changed shape: init=%r steps=%r depth steps=%r zero test=%r" % (init, steps, dsteps, zero))
-        return init[0], steps[0], dsteps[0]
+        imp = impl_pagetree()
+        sig = re.search(r"fn\s+page_limited\s*\(([^)]*)\)", imp)
+        params = [p.split(":")[0].strip() for p in sig.group(1).split(",") if ":" in p]
+        dname = params[-1]                              # the depth budget is the last parameter
+        b = X.fn_body(imp, "page_limited")
+        inits = re.findall(r"let\s+mut\s+(\w+)\s*=\s*(\d+)\s*;", b)
+        if len(inits) != 1:
+            raise ValueError("page_limited: expected one `let mut <pos> = <n>;`, found %r" % (inits,))
+        pname, init = inits[0]
+        steps = re.findall(r"\b" + pname + r"\s*\+=\s*(\d+)\s*;", b)
+        dsteps = re.findall(r"\b" + dname + r"\s*-\s*(\d+)", b)
+        zero = re.findall(r"if\s+" + dname + r"\s*==\s*(\d+)\s*\{", b)
+        if len(steps) != 1 or len(dsteps) != 1 or zero != ["0"]:
+            raise ValueError("page_limited changed shape: steps=%r depth steps=%r zero test=%r" % (steps, dsteps, zero))
+        return init, steps[0], dsteps[0]
     g.attempt([("page_pos_init", "N"), ("page_leaf_step", "N"), ("page_depth_step", "N")], "types.rs:PageTree::page_limited", limited)
 
     def node_types():
